@@ -138,6 +138,28 @@ func init() {
 	})
 
 	// sweep: whole programs around each limit
+	// C04 (Build and Disassemble never panic): the families with many types, functions and fields, where the
+	// operands of the instructions leave the int8 range; only a host panic is a failure here
+	Register("C04-limits-sweep", func(c *Ctx) {
+		for _, f := range families {
+			switch f.name {
+			case "types", "types-in-every-instruction", "functions", "native-functions", "struct-fields", "string-constants", "variadic-arguments":
+			default:
+				continue
+			}
+			for _, n := range []int{f.limit/2 - 1, f.limit / 2, f.limit/2 + 1, f.limit/2 + 9, f.limit - 1, f.limit, f.limit + 1} {
+				if in := c.ReplayInput(); in != nil {
+					if fam, _ := in["family"].(string); fam != f.name {
+						continue
+					}
+					if rn, _ := in["n"].(float64); int(rn) != n {
+						continue
+					}
+				}
+				checkProgram(c, f, n)
+			}
+		}
+	})
 	Register("C20-sweep", func(c *Ctx) {
 		if in := c.ReplayInput(); in != nil {
 			fam, _ := in["family"].(string)
@@ -305,6 +327,44 @@ var families = []family{
 		for i := 1; i <= n; i++ {
 			fmt.Fprintf(&b, "\t{ var a [%d]int8; n += len(a[:]) }\n", i)
 			want += i
+		}
+		b.WriteString("\tt.P(n)\n}\n")
+		return b.String(), fmt.Sprint(want)
+	}},
+	// every instruction that has a type operand (MakeMap, MakeChan, MakeSlice, New, Assert, Convert, Typify,
+	// composite literals) at every type index up to the limit and beyond the int8 range: the statement form
+	// rotates with i; several forms use two types, so the limit error may arrive at about n = 128 (no entry in own)
+	{"types-in-every-instruction", 256, func(n int) (string, string) {
+		var b strings.Builder
+		b.WriteString("package main\nimport \"t\"\nfunc main() {\n\tn := 0\n")
+		want := 0
+		for i := 1; i <= n; i++ {
+			switch i % 8 {
+			case 0:
+				fmt.Fprintf(&b, "\t{ m := make(map[[%d]int8]int); m[[%d]int8{}] = 1; n += len(m) }\n", i, i)
+				want += 1
+			case 1:
+				fmt.Fprintf(&b, "\t{ c := make(chan [%d]int8, 2); n += cap(c) }\n", i)
+				want += 2
+			case 2:
+				fmt.Fprintf(&b, "\t{ p := new([%d]int8); n += len(p) }\n", i)
+				want += i
+			case 3:
+				fmt.Fprintf(&b, "\t{ s := make([][%d]int8, 1); n += len(s[0]) }\n", i)
+				want += i
+			case 4:
+				fmt.Fprintf(&b, "\t{ var x any = [%d]int8{}; if _, ok := x.([%d]int8); ok { n += 3 } }\n", i, i)
+				want += 3
+			case 5:
+				fmt.Fprintf(&b, "\t{ type T [%d]int8; var a [%d]int8; n += len(T(a)) }\n", i, i)
+				want += i
+			case 6:
+				fmt.Fprintf(&b, "\t{ s := []struct{ A [%d]int8 }{{}}; n += len(s[0].A) }\n", i)
+				want += i
+			default:
+				fmt.Fprintf(&b, "\t{ var a [%d]int8; n += len(a[:]) }\n", i)
+				want += i
+			}
 		}
 		b.WriteString("\tt.P(n)\n}\n")
 		return b.String(), fmt.Sprint(want)
